@@ -330,6 +330,14 @@ inline std::string run_case(const Case &c, Counters *cnt, std::string *sample = 
             for (int i = 0; i < o.kind; i++) extq[q] = std::max(extq[q], pos_of(o, c, q, k, i, idxbuf[q]) + 1);
         if (extq[q] <= BIGN) extmax = std::max(extmax, extq[q]);
     }
+    // slots that are one object: the object is as long as the longest extent any of them designates (the index lists of two
+    // INPUT slots that share an object may differ, see alias_configs)
+    for (int q = 1; q < 3; q++)
+        if (root[q] != q && has_mem(opnd(s, q)) && has_mem(opnd(s, root[q])))
+        {
+            u64 m = std::max(extq[q], extq[root[q]]);
+            extq[q] = extq[root[q]] = m;
+        }
     for (int q = 0; q < 3; q++)
     {
         const Operand &o = opnd(s, q);
@@ -492,6 +500,11 @@ inline std::string run_case(const Case &c, Counters *cnt, std::string *sample = 
         const Operand &o = opnd(s, q);
         if (!has_mem(o) || root[q] != q) continue;
         ASAN_POISON_MEMORY_REGION(sl[q].base, sl[q].len * sizeof(u64));
+    }
+    for (int q = 0; q < 3; q++) // designated positions of every slot (slots that share an object may designate different ones)
+    {
+        const Operand &o = opnd(s, q);
+        if (!has_mem(o)) continue;
         int nk = o.carrier == C_CONST_PTR ? 1 : L;
         for (int k = 0; k < nk; k++)
             for (int i = 0; i < o.kind; i++) ASAN_UNPOISON_MEMORY_REGION(sl[q].base + pos_of(o, c, q, k, i, idxbuf[q]), sizeof(u64));
@@ -704,6 +717,23 @@ inline std::vector<std::array<std::pair<u64, int>, 3>> alias_configs(const Spec 
                         if (in[q]) cfg[q] = g;
                     out.push_back(cfg);
                 }
+    // two INPUT operands in one object need not designate the same positions: when both are index-array carriers, every ordered
+    // pair of index lists from the single-deviation gap words (all gaps consecutive but one; same first entry, later entries
+    // differ) is run as well -- a shortcut that recognises "a and b are the same operand" must compare the whole lists
+    if (al == AL_AB && opnd(s, 1).carrier == C_ARR_IDX && opnd(s, 2).carrier == C_ARR_IDX)
+    {
+        std::vector<int> words = {NIP + 0};
+        int L = s.lanes, pw3 = 1;
+        for (int t = 1; t < L; t++) { words.push_back(NIP + 1 * pw3); words.push_back(NIP + 2 * pw3); pw3 *= 3; }
+        for (auto &x0 : fr[0])
+            for (int pa : words)
+                for (int pb : words)
+                {
+                    if (pa == pb) continue;
+                    std::array<std::pair<u64, int>, 3> cfg = {x0, std::pair<u64, int>{0, pa}, std::pair<u64, int>{0, pb}};
+                    out.push_back(cfg);
+                }
+    }
     return out;
 }
 
@@ -755,7 +785,7 @@ inline void run_overload(int si, bool thorough, const char *prop)
                         if (!f.empty())
                         {
                             size_t t = f.find('\t');
-                            rep().viol(std::string(prop) + "." + f.substr(0, t) + "." + s.id + (al ? ".alias" : ""), cs_, fmt("%s(%s) %s:%d: ", s.name, s.decl, s.file, s.line) + f.substr(t + 1));
+                            rep().viol(std::string(prop) + "." + f.substr(0, t) + "." + s.id + sig_suffix(c), cs_, fmt("%s(%s) %s:%d: ", s.name, s.decl, s.file, s.line) + f.substr(t + 1));
                             if (++cnt.viol >= 40) goto done;
                         }
                     }
